@@ -488,7 +488,8 @@ pub fn c18(thorough: bool, rng: &mut Rng, out: &mut Out) {
 
 pub fn c20(thorough: bool, rng: &mut Rng, out: &mut Out) {
     out.rule = "every prior PortSettings value (11 standard baud rates + BaudOther{0,19200,4000000} x 4 character sizes x 3 parities x 2 stop bits x 3 flow controls = 1008) x failure injected at read_settings / set_baud_rate / write_settings / set_timeout / nowhere x {SerialSignBus::try_new, Odk::try_new, configure_port with a caller timeout}; non-trivial = every case; distinct = distinct case line".into();
-    out.exhaustive_note = "the product is enumerated completely".into();
+    out.exhaustive_note = "thorough: the product prior settings x failure points x entry points is enumerated completely; quick skips two thirds of the failure cases of the non-default entry points".into();
+    out.exhaustive = thorough;
     let mut bauds: Vec<String> = (0..11).map(|b| b.to_string()).collect();
     bauds.extend(["o0".to_string(), "o19200".to_string(), "o4000000".to_string()]);
     let t = rng.range(1, 60_000);
